@@ -64,7 +64,7 @@ class C23(core.Check):
                     bufsize=rng.choice([16, 64, 512, 4096, 8192, 65536]),
                     chunks=None if rng.chance(0.4) else [rng.choice([3, 5, 9, 17]) for _ in range(nchunks)],
                     torn=rng.choice([0.01, 0.3, 0.5, 0.9, 0.99]),
-                    recover_same_pid=rng.chance(0.5), variant=route)
+                    recover_same_pid=rng.chance(0.5), variant=route, rel=rng.fork('rel').chance(0.3))
 
     # ------------------------------------------------------------------
     def _target(self, case):
@@ -80,28 +80,33 @@ class C23(core.Check):
         route = case['route']
         decl = case['decl']
         target = self._target(case)
+        arg = target
+        if case.get('rel') and route != 'compile_py':
+            # the target is given as a bare file name, relative to the (virtual) current directory
+            fs.cwd = os.path.dirname(target)
+            arg = os.path.basename(target)
         buf = io.StringIO()
         try:
             with contextlib.redirect_stdout(buf), contextlib.redirect_stderr(buf):
                 if route == 'emit_c':
-                    ffi.emit_c_code(target); return None
+                    ffi.emit_c_code(arg); return None
                 if route == 'emit_py':
-                    ffi.emit_python_code(target); return None
+                    ffi.emit_python_code(arg); return None
                 if route == 'compile_py':
                     r = ffi.compile(tmpdir=os.path.join(ROOT, 'out'))
                     if r != target:
                         raise HarnessError('compile() wrote to %r, expected %r' % (r, target))
                     return None
                 if route == 'recompile_c':
-                    return self.rec.recompile(ffi, decl['name'], decl['source'], c_file=target,
+                    return self.rec.recompile(ffi, decl['name'], decl['source'], c_file=arg,
                                               call_c_compiler=False, uses_ffiplatform=False)[1]
                 if route == 'recompile_py':
-                    return self.rec.recompile(ffi, decl['name'], None, c_file=target,
+                    return self.rec.recompile(ffi, decl['name'], None, c_file=arg,
                                               call_c_compiler=False, uses_ffiplatform=False)[1]
                 if route == 'make_c':
-                    return self.rec.make_c_source(ffi, decl['name'], decl['source'], target)
+                    return self.rec.make_c_source(ffi, decl['name'], decl['source'], arg)
                 if route == 'make_py':
-                    return self.rec.make_py_source(ffi, decl['name'], target)
+                    return self.rec.make_py_source(ffi, decl['name'], arg)
                 raise HarnessError('unknown route')
         finally:
             self.seam.fs = None
@@ -155,6 +160,9 @@ class C23(core.Check):
         fs0.dirs.add(os.path.join(ROOT, 'out'))
         try:
             self._op(ffi, case, fs0)
+        except OSError as e:
+            return out.violate('C23.2', 'regeneration into an empty directory failed with %r (%s target)'
+                               % (e, 'relative' if case.get('rel') else 'absolute'), 0)
         except Exception as e:
             return out.harness('fault-free rendering failed: %r' % (e,))
         new = fs0.get(target)
